@@ -2,7 +2,6 @@
    thumbprint templates, totality of the parsers. *)
 From Verif Require Import Lib.Base Lib.Sx Model.Jose Proofs.Jose Proofs.JoseCompact Proofs.JoseCipher.
 Open Scope N_scope.
-Ltac Zify.zify_post_hook ::= Z.div_mod_to_equations.
 
 (* ------------------------------------------------------------------ be_val / be_bytes *)
 Lemma be_val_acc_app a : forall acc b, be_val_acc acc (a ++ b) = be_val_acc (be_val_acc acc a) b.
@@ -32,17 +31,24 @@ Proof.
   - cbn [be_bytes_acc]. destruct (N.eqb_spec n 0) as [->|NE]; [lia|].
     rewrite IH.
     + cbn [length be_val_acc]. rewrite (be_val_acc_shift acc (0 * 256 + n mod 256)).
-      rewrite Nat2N.inj_succ, N.pow_succ_r by lia. nia.
+      rewrite Nat2N.inj_succ, N.pow_succ_r by lia.
+      set (P := 256 ^ N.of_nat (length acc)). set (B := be_val_acc 0 acc).
+      pose proof (N.div_mod n 256 ltac:(lia)) as Hd.
+      set (q := n / 256) in *. set (r := n mod 256) in *.
+      replace (n * P) with ((256 * q + r) * P) by (rewrite <- Hd; reflexivity). ring.
     + rewrite Nat2N.inj_succ, N.pow_succ_r in Hn by lia.
-      apply N.div_lt_upper_bound; [lia|]. nia.
+      apply N.div_lt_upper_bound; [lia|]. set (P := 2 ^ N.of_nat f) in *. lia.
 Qed.
 
-Lemma size_nat_bound n : n < 2 ^ N.of_nat (N.size_nat n).
+Lemma pos_size_bound p : N.pos p < 2 ^ N.of_nat (Pos.size_nat p).
 Proof.
-  destruct n as [|p]; [cbn; lia|]. cbn [N.size_nat].
-  pose proof (N.size_gt (N.pos p)) as H. rewrite <- (N2Nat.id (N.size (N.pos p))) in H.
-  cbn [N.size] in H. rewrite positive_N_nat in H. exact H.
+  induction p as [p IH|p IH|]; cbn [Pos.size_nat].
+  - rewrite Nat2N.inj_succ, N.pow_succ_r by lia. set (P := 2 ^ N.of_nat (Pos.size_nat p)) in *. lia.
+  - rewrite Nat2N.inj_succ, N.pow_succ_r by lia. set (P := 2 ^ N.of_nat (Pos.size_nat p)) in *. lia.
+  - cbn. lia.
 Qed.
+Lemma size_nat_bound n : n < 2 ^ N.of_nat (N.size_nat n).
+Proof. destruct n as [|p]; [cbn; lia|]. apply pos_size_bound. Qed.
 
 Lemma be_val_be_bytes n : be_val (be_bytes n) = n.
 Proof.
